@@ -326,6 +326,53 @@ def run_shard(ctx):
             w = shrink(v, failsp, sig_ofp, ctx.explained)
             sig = sig_ofp(w)
             acc.fail(sig, {'dialect': dialect, 'position': p, 'value': v, 'shrunk': w, 'printed': print_string(dialect, w, p)[1]})
+    # ---- strings printed by OTHER printers than Constant's: typed literals, option values of every command ------------------
+    # (mindsdb dialect; values without a backslash - what a backslash does to the library's literals is C04-F6 whatever the position)
+    from mindsdb_sql.parser import ast as A_
+    # (no control characters, no double quotes, no quote at either end: those are the listed decoding mechanisms F1 / F4 again, whoever prints)
+    rt_vals = LOOKALIKES + ['Ünï', '漢字', 'a b', 'é', 'x\u00a0y', '%s', 'a;b', "it's", "five o'clock", "a', 'b", '', ' ', '{', '[x]', '€', '\u00df', 'Ω≈ç√', '日本語 テキスト', 'emoji 🙂']
+    rt_positions = {
+        'typed-literal': (lambda v: A_.Select(targets=[A_.TypeCast(type_name='DATE', arg=A_.Constant(v)), A_.Identifier('zz')]), lambda t: t.targets[0].arg.value),
+        'cast': (lambda v: A_.Select(targets=[A_.TypeCast(type_name='varchar', arg=A_.Constant(v), precision=[10])]), lambda t: t.targets[0].arg.value),
+    }
+    for name_, (tmpl_, get_) in OPTION_POSITIONS.items():
+        def mk(v, _t=tmpl_, _g=get_):
+            t_ = parse_sql(_t.format(L="'QQ'"), 'mindsdb')
+            # put the value where the parser put 'QQ'
+            for path, o in monitors.walk(t_):
+                if isinstance(o, dict):
+                    for k_, v_ in list(o.items()):
+                        if v_ == 'QQ':
+                            o[k_] = v
+                        elif isinstance(v_, list) and 'QQ' in v_:
+                            o[k_] = [v if x == 'QQ' else x for x in v_]
+                        elif isinstance(v_, dict) and 'QQ' in v_.values():
+                            o[k_] = {kk: (v if x == 'QQ' else x) for kk, x in v_.items()}
+            return t_
+        rt_positions['print:' + name_] = (mk, get_)
+    for vi, v in enumerate(rt_vals):
+        for pname, (mk_, get_) in rt_positions.items():
+            idx += 1
+            if not ctx.mine(idx) or ctx.out_of_time():
+                continue
+            acc.ev()
+            acc.count('print_checked')
+            acc.count('strings_printed_by_other_printers')
+            try:
+                tree_ = mk_(v)
+                txt_ = tree_.to_string()
+            except Exception as e:
+                acc.fail({'direction': 'print', 'kind': 'string', 'dialect_class': 'mindsdb', 'spelling': 'to_string', 'failure': 'print-raises:' + type(e).__name__, 'position': pname,
+                          'feat': features(v)}, {'value': v, 'error': str(e)[:200]})
+                continue
+            try:
+                back = get_(parse_sql(txt_, 'mindsdb'))
+                ok_ = (back == v and type(back) is type(v))
+            except Exception as e:
+                back, ok_ = 'rejected:' + type(e).__name__, False
+            if not ok_:
+                acc.fail({'direction': 'print', 'kind': 'string', 'dialect_class': 'mindsdb', 'spelling': 'to_string', 'failure': 'printed-not-read-back', 'position': pname,
+                          'feat': features(v)}, {'value': v, 'printed': txt_[:300], 'read_back': repr(back)[:120]})
     # ---- numbers -------------------------------------------------------------------------------
     rn = ctx.sub_rng('numbers')
     nums = ['0', '1', '7', '10', '007', '000', '2147483648', '9223372036854775808', '123456789012345678901234567890',
